@@ -82,10 +82,10 @@ CLAIMED = {
     "C05": ('Lean 4 proof (reject-or-equivalent: build_meaning on nested documents, boolean part without document hypothesis) + correspondence (JSON and messages equal) + reference semantics on random documents',
             'Theorems: evalJ_json (the JSON means what the E-tree means), build_meaning (SupportedSem, cfgPlain, DocWF: for every truth assignment and document the returned query matches exactly what the tree denotes: AND all, OR any, implicit default, NOT/- complement, nested = some nested object), build_meaning_flat (pure boolean part, no document hypothesis: negation never dropped, grouping respected), reject_or_equivalent (with C07). KF3/KF4/KF5 excluded by hypothesis and refuted on witnesses by decide. Correspondence + python reference evaluators as before.',
             NOTE_COMMON + 'Leaf atoms are opaque (truth insensitive to _name / zero_terms_query); documents well-formed (DocWF).', "5 C05"),
-    "C06": ('Lean 4 proof (leaf clauses in document order = expectedLeaves; count, field, name) + correspondence + expected-clause oracle + builder call histories',
+    "C06": ('Lean 4 proof (leaf clauses in document order = expectedLeaves; count, field, name) + visit_word / visit_phrase translated from the source by symbolic execution (tools/pysym.py; Props/GenEs: the items the model builds for words and phrases are made from the arguments the translated methods hand to the factory) + correspondence + expected-clause oracle + builder call histories',
             'Theorems: leaves_eq_expected (no boolean operation: the leaf clauses of the result, in document order, are the clauses expected from the tree), leaves_perm_expected (with boolean operations: as a permutation), leaves_length (= number of terms and ranges), expected_fields, expected_names, every_term_one_clause. Purity of the builder is definitional in the model; on the implementation: same builder twice / fresh builder / class attribute snapshots.',
             NOTE_COMMON + "expectedLeaves is defined through the same EItem construction as the model's builder; the python oracle recomputes field/text/kind/zero_terms/_name/modifiers independently.", "5 C06"),
-    "C07": ('Lean 4 proof (refuses_exactly: misuse / mix characterisation in all four directions) + correspondence + independent refusal predicate',
+    "C07": ('Lean 4 proof (refuses_exactly: misuse / mix characterisation in all four directions) + CheckNestedFields decision and _is_must / _is_should / _yield_nested_children (all pairs of classes, both default operators) translated from the source by symbolic execution (tools/pysym.py; Props/GenNesting, Props/GenEs) + correspondence + independent refusal predicate',
             'Theorems: nestingCheck_ok_iff / nestingCheck_error_iff (the checker raises exactly on the first misused container term), orAnd_only_on_mix, mix_refused, misuse_refused, translated (Supported: every query that is not refused is translated, no other exception), refuses_exactly; spec-normalisation lemmas for equivalent spellings. Negative witnesses (IndexError on one-operand mixes, regex after field, non-term range bound, KF5) by decide.',
             NOTE_COMMON + 'KF5 recognised by recomputing the python predicate with parents-of-leaves as containers.', "5 C07"),
     "C08": ("Lean 4 proof (visitEvents = preorder map dispatch, cache consistency, preorder context, copy lemmas) + clone_item "
